@@ -135,6 +135,69 @@ theorem change_announced (o : Oracle V E) (e : Entry V E) (now : Int) :
   · intro v hv; unfold announceR; rw [emits_changed o e now v hv]; simp
   · intro x hx; unfold announceR; rw [emits_error o e now x hx]; simp
 
+/-- successive values, each of which the comparison of the funnel (`veq`) does not tell apart from the one before -/
+def Drift (o : Oracle V E) : V → List V → Prop
+  | _, [] => True
+  | a, b :: rest => o.veq a b = true ∧ Drift o b rest
+
+/-- the last value of a history of values (the start value if it is empty) -/
+def lastOr : V → List V → V
+  | a, [] => a
+  | _, b :: rest => lastOr b rest
+
+/-- Why the comparison in the funnel has to be EXACT (`ExportExact`): with ANY comparison, a drift — values of which each
+is "unchanged" relative to the one before, e.g. closer than some resolution — arriving inside the window (or for ever
+with `update_unchanged = never`) is stored value by value without a single message: the cache ends at the last value of
+the drift, however far from the last announced one. -/
+theorem tolerant_compare_drifts (o : Oracle V E) (e : Entry V E) (vs : List V) (now : Int)
+    (hne : e.readerror = none) (hwin : now < e.timestamp + e.window) (hd : Drift o e.value vs) :
+    (runR o e (vs.map (fun v => ⟨now, .val v⟩))).msgs = [] ∧
+    (runR o e (vs.map (fun v => ⟨now, .val v⟩))).entry = { e with value := lastOr e.value vs } := by
+  induction vs generalizing e with
+  | nil => simp [runR, lastOr]
+  | cons v rest ih =>
+    obtain ⟨h1, h2⟩ := hd
+    have hem : emits o e now (.val v) = false := by
+      simp [emits, changed, h1, hne, hwin]
+    have hout : announceR o e now (.val v) = ⟨{ e with value := v }, none⟩ := by
+      unfold announceR; rw [hem]; rfl
+    have := ih { e with value := v } hne hwin h2
+    simp only [List.map_cons, runR, hout, Option.toList, List.nil_append]
+    exact ⟨this.1, by rw [this.2]; rfl⟩
+
+/-- … so with such a comparison the statement is false as soon as the ends of a drift have different exported forms. -/
+theorem tolerant_compare_breaks (o : Oracle V E) (ex : V → X) (e : Entry V E) (vs : List V) (now : Int)
+    (hne : e.readerror = none) (hwin : now < e.timestamp + e.window) (hd : Drift o e.value vs)
+    (hfar : ex (lastOr e.value vs) ≠ ex e.value) :
+    replay (e.ve.map ex) ((runR o e (vs.map (fun v => ⟨now, .val v⟩))).msgs.map (fun m => m.ve.map ex)) ≠
+      (runR o e (vs.map (fun v => ⟨now, .val v⟩))).entry.ve.map ex := by
+  obtain ⟨h1, h2⟩ := tolerant_compare_drifts o e vs now hne hwin hd
+  rw [h1, h2]
+  simp only [List.map_nil, replay, List.foldl_nil, Entry.ve, hne, VE.map]
+  intro h
+  exact hfar (by injection h with h; exact h.symm)
+
+/-- A `write_<p>` (called directly, or by a `change` request) that takes the value over — assigns the parameter — and
+fails afterwards: nothing is announced by the wrapper, but every assignment was a complete call of the funnel, so the
+history of the parameter is exactly these calls (and `replay_eq_cache` / `change_announced` apply to it). -/
+theorem failed_write_announces_assignments (o : Oracle V E) (raw : V) (inner : List V)
+    (hc : writeCalled o raw true .raises = true) :
+    writeEvs o raw true inner .raises = inner.map assignEv := by
+  unfold writeEvs writeInner
+  rw [hc]
+  unfold writeEv
+  cases hv : o.valid raw with
+  | error x => simp [writeCalled, hv] at hc
+  | ok nv => simp [innerEvs]
+
+/-- The calls of the funnel a `change` request makes do not depend on which connection sent it (the connection is not
+even an argument of `changeEvs`), and whatever they are the stream reconstructs the cache after them. -/
+theorem change_request_replay (o : Oracle V E) (ex : V → X) (h : ExportExact o ex) (e : Entry V E) (now : Int)
+    (rq : ChangeReq V) (ck : Bool) (inner : List V) (w : WriteRes V) :
+    let evs := (changeEvs o rq ck inner w).map (fun ev => (⟨now, ev⟩ : TEv V E))
+    replay (e.ve.map ex) ((run o e evs).msgs.map (fun m => m.ve.map ex)) = (run o e evs).entry.ve.map ex :=
+  replay_eq_cache o ex h e _
+
 /-- A parameter that is not exported never produces a message (and its cache entry evolves as that of any other);
 for an exported one `announceX` is the funnel. -/
 theorem unexported_silent (o : Oracle V E) (e : Entry V E) (now : Int) (r : VE V E) :
@@ -495,6 +558,48 @@ theorem conc_ok_activation (c : Cfg V E) (ex : V → X) (h : ExportExact c.o ex)
     simp only [hmap]
     rw [hlg k ⟨hk, hf.1, hf.2⟩, hlg k' ⟨hk', hf'.1, hf'.2⟩]
 
+/-! ### requests that come through the dispatcher -/
+
+/-- A `change` request of connection `k` on parameter `p`, handled by thread `t` while any other threads do anything
+(funnel calls, activations, other requests): in every reachable state
+* the calls of the funnel the request has completed are the beginning of `changeEvs` (all of them once the request is
+  finished) and they are part of the history `hist p` the sequential run is made of;
+* the requesting connection itself — if it is entitled to the state of `p` (subscribed before the run or sent the
+  snapshot) — knows exactly the cache of `p` whenever no call on `p` is in flight: it is a listener like any other, the
+  update caused by its own request, an assignment made by a failing `write_<p>`, and an update made by another thread
+  while the request is under way are all delivered to it. -/
+theorem change_request_coherent (c : Cfg V E) (ex : V → X) (h : ExportExact c.o ex) (init : Pid → Entry V E)
+    (progs : Tid → List (Op V E)) (clock : Int) (s : Sys V E) (hn : c.conns.Nodup)
+    (hr : Reach c (Sys.init init progs clock c.act0) s)
+    (t : Tid) (k : Cid) (p : Pid) (rq : ChangeReq V) (ck : Bool) (inner : List V) (w : WriteRes V)
+    (hprog : progs t = changeOps c.o k p rq ck inner w) :
+    (∃ rest, (changeEvs c.o rq ck inner w).map (fun ev => (p, resolve c.o ev)) = doneBy t s.ghist ++ rest) ∧
+    (finished s t = true → doneBy t s.ghist = (changeEvs c.o rq ck inner w).map (fun ev => (p, resolve c.o ev))) ∧
+    s.hist p = onParam p s.ghist ∧
+    (Sub c s k p → (∀ t', pcPid (s.thr t').pc ≠ some p) →
+      replayO (known0 c ex init k p) ((plog s k p).map (fun m => m.ve.map ex)) = some ((s.entries p).ve.map ex)) := by
+  obtain ⟨h1, h2, h3⟩ := hist_is_interleaving c init progs clock s hr
+  have ha := annR_changeOps c.o k p rq ck inner w
+  refine ⟨?_, ?_, h3 p, fun hs hfree => activation_coherent c ex h init progs clock s hn hr k p hs hfree⟩
+  · obtain ⟨rest, hrest⟩ := h1 t
+    exact ⟨rest, by rw [← ha, ← hprog]; exact hrest⟩
+  · intro hf
+    rw [h2 t hf, hprog, ha]
+
+/-- the same for a `read` request -/
+theorem read_request_coherent (c : Cfg V E) (ex : V → X) (h : ExportExact c.o ex) (init : Pid → Entry V E)
+    (progs : Tid → List (Op V E)) (clock : Int) (s : Sys V E) (hn : c.conns.Nodup)
+    (hr : Reach c (Sys.init init progs clock c.act0) s)
+    (t : Tid) (k : Cid) (p : Pid) (inner : List V) (res : ReadRes V E)
+    (hprog : progs t = readReqOps c.o k p inner res) :
+    (finished s t = true → doneBy t s.ghist = (readEvs c.o inner res).map (fun ev => (p, resolve c.o ev))) ∧
+    s.hist p = onParam p s.ghist ∧
+    (Sub c s k p → (∀ t', pcPid (s.thr t').pc ≠ some p) →
+      replayO (known0 c ex init k p) ((plog s k p).map (fun m => m.ve.map ex)) = some ((s.entries p).ve.map ex)) := by
+  obtain ⟨_, h2, h3⟩ := hist_is_interleaving c init progs clock s hr
+  refine ⟨fun hf => ?_, h3 p, fun hs hfree => activation_coherent c ex h init progs clock s hn hr k p hs hfree⟩
+  rw [h2 t hf, hprog, annR_readReqOps]
+
 end concurrent
 
 /-- Facts about the constants of the source the model relies on (regenerated from the repository on every
@@ -639,6 +744,51 @@ example : ∃ s, Reach exCfgA exSA s ∧ s.lock = none ∧ Sub exCfgA s 3 0 ∧ 
     rw [h] at hd
     simp only [Option.map_some, Option.some.injEq, Prod.mk.injEq] at hd
     exact ⟨s, reach_of_runSched _ _ _ _ .start _ h, hd.1, ⟨by decide, Or.inr hd.2.1⟩, by decide, hd.2.2⟩
+
+/-! ### a comparison with a tolerance; requests through the dispatcher -/
+
+/-- `!=` replaced by "differs by more than 1" (a resolution) -/
+def exTol : Oracle Nat Nat := ⟨fun a b => decide (a ≤ b + 1) && decide (b ≤ a + 1), fun v => .ok v, fun v => .ok v⟩
+
+example : Drift exTol exE.value [6, 7, 8] := ⟨by decide, by decide, by decide, trivial⟩
+example : exE.readerror = none ∧ (101 : Int) < exE.timestamp + exE.window ∧ lastOr exE.value [6, 7, 8] ≠ exE.value := by decide
+/-- the drift 5 → 6 → 7 → 8 inside the window: no message, the cache holds 8, the client still 5 -/
+example : (runR exTol exE ([6, 7, 8].map (fun v => ⟨101, .val v⟩))).msgs = [] ∧
+    (runR exTol exE ([6, 7, 8].map (fun v => ⟨101, .val v⟩))).entry.ve = .val 8 := by decide
+/-- with the exact comparison every step of the same drift is announced -/
+example : (runR exO exE ([6, 7, 8].map (fun v => ⟨101, .val v⟩))).msgs.map (·.ve) = [.val 6, .val 7, .val 8] := by decide
+
+/-- `write_p(7)` assigns 7 and raises: one call of the funnel, announced -/
+example : writeCalled exO 7 true .raises = true ∧
+    (run exO exE ((writeEvs exO 7 true [7] .raises).map (fun ev => ⟨101, ev⟩))).msgs.map (·.ve) = [.val 7] := by decide
+/-- a `change` request for a read-only parameter, or with a datum `import_value` refuses, makes no call -/
+example : changeEvs exO ⟨true, some 7⟩ true [7] .none = ([] : List (Ev Nat Nat)) ∧
+    changeEvs exO ⟨false, none⟩ true [7] .none = ([] : List (Ev Nat Nat)) ∧
+    changeEvs exO ⟨false, some 7⟩ true [8] (.returns 9) = [assignEv 8, .value 9 false] := by decide
+
+/-- connection 1 (activated, like connection 2) sends `change p 7`; `write_p` assigns 7 and raises; thread 1 (a poller)
+assigns 9 while the request holds the dispatcher lock and the access lock -/
+def exProgsR : Tid → List (Op Nat Nat)
+  | 0 => changeOps exO 1 0 ⟨false, some 7⟩ true [7] .raises
+  | 1 => [.announce 0 (assignEv 9) .absent]
+  | _ => []
+
+def exSR : Sys Nat Nat := Sys.init exInit exProgsR 101 exCfg.act0
+
+/-- the request takes its three locks, the poller's update goes through, then the request goes on -/
+def exSchedR : List Tid := [0, 0, 0] ++ List.replicate 13 1 ++ List.replicate 16 0
+
+example : exProgsR 0 = [.reqAcquire 1, .accAcquire, .accAcquire, .announce 0 (assignEv 7) .absent, .accRelease, .accRelease,
+    .reqRelease] := rfl
+/-- the requesting connection receives the poller's 9 and its own 7, like the other connection; the cache holds 7 -/
+example : (runSched exCfg exSR exSchedR).map (fun s => ((s.logs 1 0).map (·.msg.ve), (s.logs 2 0).map (·.msg.ve),
+    (s.entries 0).ve)) = some ([.val 9, .val 7], [.val 9, .val 7], .val 7) := by decide
+example : (runSched exCfg exSR exSchedR).map (fun s => (s.dlock, s.alock, s.adepth, finished s 0)) =
+    some (none, none, 0, true) := by decide
+/-- while the request holds the access lock twice, another wrapper is blocked, an assignment is not -/
+example : (runSched exCfg exSR [0, 0, 0]).map (fun s => (s.dlock, s.alock, s.adepth)) = some (some 0, some 0, 2) := by decide
+example : (runSched (V := Nat) (E := Nat) exCfg (Sys.init exInit (fun t => if t = 0 then exProgsR 0 else [.accAcquire]) 101 exCfg.act0)
+    [0, 0, 0, 1]).isNone = true := by decide
 
 end examples
 
